@@ -28,8 +28,9 @@ import (
 
 // D is the driver.
 type D struct {
-	dir  string
-	runN int
+	dir     string
+	runN    int
+	lastDir string
 }
 
 func (d *D) Property() string { return "C18" }
@@ -241,9 +242,17 @@ func (d *D) execute(sc *core.Scenario, faults []simos.Fault) *outcome {
 	if err := os.MkdirAll(dir, 0o755); err != nil {
 		panic(err)
 	}
+	return d.executeIn(dir, sc, faults)
+}
+
+// executeIn (re)writes the scenario's files into dir – whatever an earlier,
+// possibly killed run left there stays – and runs the command once.
+func (d *D) executeIn(dir string, sc *core.Scenario, faults []simos.Fault) *outcome {
+	d.lastDir = dir
 	for _, f := range sc.Files {
 		p := filepath.Join(dir, f.Name)
 		os.MkdirAll(filepath.Dir(p), 0o755) //nolint:errcheck
+		os.Chmod(p, 0o600)                  //nolint:errcheck // the user edits the file in place (same inode, same name)
 		if err := os.WriteFile(p, []byte(f.Content), 0o600); err != nil {
 			panic(err)
 		}
@@ -536,6 +545,7 @@ func (d *D) RunItem(idx int, ctx *core.Ctx) {
 	ctx.Sched(prng.HashString(traceSig(base.trace)))
 	space := enumerate(base.trace)
 	ctx.Inc("fault_points_total", int64(len(space)))
+	fi := 0
 	for _, fs := range space {
 		o := d.execute(sc, fs)
 		ctx.Inc("evaluations", 1)
@@ -549,6 +559,24 @@ func (d *D) RunItem(idx int, ctx *core.Ctx) {
 			f := sc.Clone()
 			f.OSFault = fs
 			ctx.Violate(f, v)
+			continue
+		}
+		// history: whatever this (killed or failed) run left behind is still there
+		// when the user edits the file and formats again
+		if (o.crashed || len(o.leftover) > 0) && len(sc.Files) > 0 && flag(sc, "-w") {
+			follow := d.followUp(sc, fi)
+			fi++
+			o2 := d.executeIn(d.lastDir, follow, nil)
+			ctx.Inc("evaluations", 1)
+			ctx.Inc("history_second_runs", 1)
+			if v := invariants(follow, o2, nil); v != nil {
+				f := sc.Clone()
+				f.OSFault = fs
+				f.Then = follow.Files
+				v.Signature = "history:" + v.Signature
+				v.Observed["history"] = "first run: " + describe(fs) + "; then the files were edited and the command was run again without faults"
+				ctx.Violate(f, v)
+			}
 		}
 	}
 	// two-fault sequences: a failure, then a second fault in whatever the command does next
@@ -625,6 +653,28 @@ func (d *D) account(ctx *core.Ctx, o *outcome) {
 	}
 }
 
+// followUp is the scenario of the second run: same names and modes, edited
+// contents (shorter, longer, or just different from the first version).
+func (d *D) followUp(sc *core.Scenario, k int) *core.Scenario {
+	f := sc.Clone()
+	f.OSFault = nil
+	for i := range f.Files {
+		if strings.HasSuffix(f.Files[i].Name, ".txtar") {
+			f.Files[i].Content = "-- one.evy --\nprint   1\n"
+			continue
+		}
+		switch k % 3 {
+		case 0:
+			f.Files[i].Content = "x:=1\nprint x\n" // much shorter than most first versions
+		case 1:
+			f.Files[i].Content = sc.Files[i].Content + "\nprint   \"appended\"\n"
+		default:
+			f.Files[i].Content = "print   \"edited\"\n" + sc.Files[i].Content
+		}
+	}
+	return f
+}
+
 // Check re-executes one scenario (fault-free if it has no faults).
 func (d *D) Check(sc *core.Scenario) *core.Violation {
 	defer d.Cleanup()
@@ -632,7 +682,21 @@ func (d *D) Check(sc *core.Scenario) *core.Violation {
 		return d.checkConformance(sc)
 	}
 	o := d.execute(sc, sc.OSFault)
-	return invariants(sc, o, sc.OSFault)
+	if len(sc.Then) == 0 {
+		return invariants(sc, o, sc.OSFault)
+	}
+	if v := invariants(sc, o, sc.OSFault); v != nil {
+		return v
+	}
+	follow := sc.Clone()
+	follow.OSFault, follow.Then = nil, nil
+	follow.Files = sc.Then
+	o2 := d.executeIn(d.lastDir, follow, nil)
+	v := invariants(follow, o2, nil)
+	if v != nil {
+		v.Signature = "history:" + v.Signature
+	}
+	return v
 }
 
 // Shrink: fewer faults, simpler files.
@@ -677,6 +741,7 @@ func (d *D) Describe(ev *core.Evidence, st *core.Stats) {
 	}
 	fired["process-crash"] = c["runs_crashed"]
 	fired["two-fault-sequences"] = c["fault_sequences"]
+	fired["history: second run after a killed/failed first run"] = c["history_second_runs"]
 	fired["strace-injections"] = c["conformance_runs"]
 	ev.Coverage["faults_injected"] = fired
 	ev.Coverage["traces_validated_against_impl"] = c["conformance_agree"]
